@@ -9,8 +9,8 @@
 // NOTE on `repo`: GenTables receives the path of the repository but the flag
 // state comes from the package that is linked into this very binary.
 // bin/check rebuilds vh from VERIF_REPO (go.mod `replace` => that path) before
-// it calls `vh gen-tables`, so the two are the same tree; the header of the
-// generated file records the path for the reader.
+// it calls `vh gen-tables`, so the two are the same tree (the path is deliberately not written
+// into the generated file, so that the file only changes when the table does).
 package c19
 
 import (
@@ -41,6 +41,7 @@ type Row struct {
 	UsageDef   string // a default claimed in the free text ("… (default: 0.5)"), "" if none is recognised
 	Hidden     bool
 	NoOptDef   string
+	GoVar      string // name of the bound Go variable, when the source pass (initorder.go) found the registration
 
 	flag *pflag.Flag
 	cmd  *cobra.Command
@@ -191,6 +192,20 @@ func GenTables(repo, out string) error {
 	}
 	b.WriteString("]\n\n")
 	b.WriteString("def table : List Row := chunks.flatten\n\n")
+	b.WriteString("/-- rows whose help sentence itself claims a numeric / boolean default (free text), with the claim -/\n")
+	b.WriteString("def usageClaims : List (Row × String) := [")
+	first := true
+	for _, r := range rows {
+		if cl := comparableClaim(r); cl != "" {
+			if !first {
+				b.WriteString(",")
+			}
+			first = false
+			fmt.Fprintf(&b, "\n  (⟨%s, %s, %s, %v, %d, %s, %s, %s⟩, %s)", leanStr(r.Path), leanStr(r.Flag), leanStr(r.Short),
+				r.Persistent, r.Var, leanStr(r.Type), leanStr(r.Def), leanStr(r.Cur), leanStr(cl))
+		}
+	}
+	b.WriteString("]\n\n")
 	fmt.Fprintf(&b, "def nrows : Nat := %d\n\nend Gotree.Gen.C19Flags\n", len(rows))
 	p := filepath.Join(out, "C19Flags.lean")
 	if old, err := os.ReadFile(p); err == nil && string(old) == b.String() {
